@@ -2,6 +2,7 @@ package fn
 
 import (
 	"fmt"
+	"k8s.io/apimachinery/pkg/types"
 	"regexp"
 	"sort"
 
@@ -37,6 +38,8 @@ func (e *C20) Floors(string) map[string]int {
 }
 
 var c20invalid = regexp.MustCompile(`[^a-zA-Z0-9_]`)
+
+var c20uid int
 
 func sanitise(k string) string { return c20invalid.ReplaceAllString(k, "_") }
 
@@ -98,7 +101,10 @@ func (e *C20) one(ctx *core.Ctx) {
 			lblCopy[k] = v
 		}
 	}
-	meta := metav1.ObjectMeta{Name: "foo", Namespace: "ns", Labels: lblCopy, CreationTimestamp: metav1.NewTime(kit.T0)}
+	// objects served by an API server have a UID and a generation; labels are metadata, so editing
+	// them does not change the generation
+	c20uid++
+	meta := metav1.ObjectMeta{Name: "foo", Namespace: "ns", Labels: lblCopy, CreationTimestamp: metav1.NewTime(kit.T0), UID: types.UID(fmt.Sprintf("uid-%d", c20uid)), Generation: 1 + int64(r.Intn(3))}
 	keyStr := fmt.Sprint(sortedKV(lbls))
 	if special {
 		if ctx.Distinct("nontrivial", keyStr) {
@@ -197,6 +203,42 @@ func (e *C20) one(ctx *core.Ctx) {
 	e.judgeFamilies(ctx, "eds", edsFams, edsGen, eds, edsWant, attrs, checkInfo)
 	ersGen := e.generateAll(ctx, ersFams, ers)
 	e.judgeFamilies(ctx, "ers", ersFams, ersGen, ers, ersWant, attrs, checkInfo)
+	// the same object relabelled (same UID, same generation: label edits are metadata changes): the
+	// regenerated series must follow the new labels
+	if len(lbls) > 0 {
+		relabelled := eds.DeepCopy()
+		newL := map[string]string{}
+		i := 0
+		for k, v := range lbls {
+			switch i % 3 {
+			case 0:
+				newL[k] = v + "-changed"
+			case 1: // removed
+			default:
+				newL[k] = v
+			}
+			i++
+		}
+		newL["added.after/creation"] = "new"
+		relabelled.Labels = newL
+		saved := lbls
+		lbls = newL
+		attrs3 := map[string]string{"specialKeys": "true", "colliding": attrs["colliding"], "after": "relabel"}
+		oldAttrs := attrs
+		attrs = attrs3
+		ctx.Count("C20.relabels-judged")
+		reGen := e.generateAll(ctx, edsFams, relabelled)
+		if g := reGen["eds_labels"]; g.panic == "" && g.fam != nil && len(g.fam.Metrics) == 1 {
+			checkInfo("eds_labels", g.fam.Metrics[0].LabelKeys, g.fam.Metrics[0].LabelValues, 2)
+		}
+		func() {
+			defer func() { _ = recover() }()
+			k, v := utils.BuildInfoLabels(&relabelled.ObjectMeta)
+			checkInfo("BuildInfoLabels", k, v, 0)
+		}()
+		attrs = oldAttrs
+		lbls = saved
+	}
 	// the store keeps the series of earlier objects while later ones are generated: the series of a
 	// second, differently labelled object must not disturb those of the first
 	other := &v1.ExtendedDaemonSet{ObjectMeta: metav1.ObjectMeta{Name: "other", Namespace: "ns", Labels: map[string]string{"zz.other/label": "o1", "zz-second": "o2"}}}
